@@ -168,9 +168,13 @@ def run(prop, tier):
     for f in confirmed:
         chk.violation({"input": f["text"], "entry": f.get("start", ""), "kind": "%s-%s" % (prop, f["kind"]), "detail": "[%s/%s] %s" % (f.get("start"), f.get("profile"), f["detail"]),
                        "replay": {"family": "grammar", "property": prop, "tape": f.get("tape"), "obs": f.get("obs"), "tier": tier}})
-    chk.assumptions = ["G (GExpr/GQuery/GDML/GDDL.tla) is the reference grammar, written from the documentation and the node documentation of ast/ast.go",
+    if prop == "C05":
+        # error clause of C05: trees returned WITH errors (fault corpus, hook traces validated by ParserTrace.tla)
+        import fam_parser
+        fam_parser.run_into(chk, "C05", tier, os.path.join(wd, "errtrees"), faults_only=True)
+    chk.assumptions += ["G (GExpr/GQuery/GDML/GDDL.tla) is the reference grammar, written from the documentation and the node documentation of ast/ast.go",
                        "token comparison classes as in DESIGN.md 2.5; '>>' and '<>' are compared as their two halves",
-                       "the real lexer used to read SQL() back is itself validated against LexerCore.tla (C14)"]
+                        "the real lexer used to read SQL() back is itself validated against LexerCore.tla (C14)"]
     return chk.finish()
 
 
